@@ -49,7 +49,7 @@ func init() {
 			ruleStoreErrorsPropagate(c, "C09.R5")
 			c.Rule("C09.R6", "mutators keep lookup, store write and memory update in one critical section (a concurrent reload cannot interleave)", 12)
 			ruleOneCriticalSection(c, "C09.R6")
-			c.Rule("C09.R7", "tables only under the cache lock", 25)
+			c.Rule("C09.R7", "tables only under the cache lock", 35)
 			ruleGuardedBy(c, "C09.R7", []string{cacheLockID}, 40)
 		}})
 }
